@@ -56,13 +56,20 @@ def beam_model(row, pruning_size, use_beta, beta, rel_eps=1e-5):
             margin = (s - best) - math.log(beta)
             band = rel_eps * max(1.0, abs(math.log(beta))) + 1e-6 * max(1.0, abs(s), abs(best))
             cutoff = best + math.log(beta)
-            if cutoff < -87.0:
-                # below the normal range of single precision the threshold exp(best)*beta is a denormal with only a few
-                # significant bits (or 0): the comparison cannot be sharper than one denormal step
-                units = math.exp(min(cutoff + 103.28, 50.0))       # threshold in units of the smallest denormal
-                band = max(band, 2.0 / units if units > 2.0 else 1e9)
             sure_beta = margin > band
             may_beta = margin >= -band
+            if cutoff < -87.0:
+                # below the normal range of single precision the threshold exp(best)*beta is a denormal with only a few
+                # significant bits (or 0).  A float implementation may then admit a tag whose probability is up to 1.5
+                # denormal steps below the exact threshold -- but never one whose own probability rounds to zero.
+                units = math.exp(min(cutoff + 103.28, 50.0))       # exact threshold in units of the smallest denormal
+                if units > 3.0:
+                    wide = -math.log(1.0 - 1.5 / units) + band
+                    may_beta = margin >= -wide
+                    sure_beta = margin > wide
+                else:
+                    may_beta = may_beta or s > -104.0
+                    sure_beta = False
         else:
             sure_beta = may_beta = True
         if sure_prune and sure_beta:
